@@ -8,6 +8,8 @@ import Mathlib.Tactic.FieldSimp
 import Mathlib.Tactic.Push
 import Mathlib.Tactic.NormNum
 
+set_option linter.unnecessarySeqFocus false
+
 namespace Shelx.C10
 
 /-! ### characters -/
@@ -198,7 +200,7 @@ theorem removePlus_print (c : Component) : removePlus (print c) = print (c.map s
         rw [removePlus_append, hv]; rfl
 
 theorem numeral_chars_ne_nil {v : Numeral} (h : v.wf = true) : v.chars ≠ [] := by
-  cases v <;> simp [Numeral.wf] at h <;> (simp [Numeral.chars, digitsChars]; exact h)
+  cases v <;> simp [Numeral.wf] at h <;> simp [Numeral.chars, digitsChars] <;> exact h
 
 theorem getLast?_print_ne_minus (p : Component) (h : allWf p = true) : (print p).getLast? ≠ some '-' := by
   induction p with
